@@ -95,6 +95,8 @@ let run (line : string) : string =
   let t = toks_of_line line in
   (match next t with "conc" -> () | k -> failwith ("drv_storageconc: unknown case kind " ^ k));
   let intervals = next_int t in
+  (* the hypothesis 1 <= intervals of the C08 theorems: InMemoryStorage.Configure refuses anything below (c110ef6) *)
+  if intervals < 1 then "CONFIG-REFUSED" else
   let expire = next_z t in
   let mindist = next_z t in
   let now = next_z t in
